@@ -36,6 +36,9 @@ def check(run):
     st = run.explore('real run: streams of 1..2 library messages (answered queries, failing queries, commands, faults), N=16, whole / byte-wise / every one and two cut positions (every chunking for streams up to 8 bytes): exactly one write + flush per answered message, nothing else written',
                      LIB + ({'k': 2, 'N': 16, 'max_len': 16},), 1200)
     records.extend(st['records'])
+    st = run.explore('real run: streams of 1..2 library messages, whole or byte-wise, a transport error injected at every call position of the real read / write / flush sequence: returned unchanged, at once, never Ok',
+                     LIB + ({'k': 2, 'N': 16, 'max_len': 16, 'fault': True},), 1200)
+    records.extend(st['records'])
     cov['vacuity']['real_run_executions_that_wrote_a_response'] = wrote
     if wrote == 0:
         raise Inconclusive('no real-run execution produced a response')
@@ -73,7 +76,7 @@ def check(run):
 
 def confirm(run, v):
     from ..checks.abstract_process import find_real_instance
-    if v['rule'] == 'LIBRARY':
+    if v['rule'] in ('LIBRARY', 'LIBFAULT'):
         from ..checks.process_level import confirm_library
         return confirm_library(run, v)
     if v.get('abstract'):
